@@ -25,6 +25,7 @@ import (
 	"github.com/notaryproject/notation-go/verifier"
 	"github.com/notaryproject/notation-go/verifier/trustpolicy"
 	pf "github.com/notaryproject/notation-plugin-framework-go/plugin"
+	"github.com/opencontainers/go-digest"
 	ocispec "github.com/opencontainers/image-spec/specs-go/v1"
 )
 
@@ -457,6 +458,13 @@ func main() {
 		if i%4 == 3 { // identities of another kind listed first are simply not x509.subject identities
 			ids = []string{"acme.signer.id:1234", "did:example:abc", id}
 		}
+		if i%4 == 1 { // several x509.subject identities, the one that decides not in first place: ANY listed identity may match
+			ids = []string{"x509.subject:C=US,ST=WA,O=Decoy One", id}
+			if i%8 == 5 {
+				ids = []string{"x509.subject:C=DE,ST=BE,O=Decoy Two", "x509.subject:C=US,ST=WA,O=Decoy One,OU=Unit", id}
+			}
+			r.Event("cells-with-several-subject-identities")
+		}
 		stores := []string{storeType + ":x"}
 		switch c.Anchor {
 		case "foundThenLoaderr":
@@ -505,6 +513,14 @@ func main() {
 			m = &mgr{p: p, notFound: c.Plugin == "notInstalled"}
 			opts.PluginManager = m
 		}
+		// every fifth cell goes through the BLOB entry point, under a blob statement with the very same level and overrides
+		blobCell := i%5 == 2 && (i/2)%3 != 2
+		if blobCell {
+			opts.BlobTrustPolicy = lib.BlobPolicy(c.L.SV(i), stores, ids)
+			if i%10 == 2 {
+				opts.OCITrustPolicy = nil // (a blob-only verifier)
+			}
+		}
 		var v notation.Verifier
 		var err error
 		if (i/2)%3 == 2 { // combined with both validator interfaces (i%2)
@@ -522,7 +538,14 @@ func main() {
 		if err != nil {
 			panic(fmt.Sprintf("harness bug: verifier construction failed: %v", err))
 		}
-		out, verr := v.Verify(context.Background(), desc, sig, notation.VerifierVerifyOptions{ArtifactReference: "r.io/a@" + desc.Digest.String(), SignatureMediaType: c.Format})
+		var out *notation.VerificationOutcome
+		var verr error
+		if blobCell {
+			r.Event("cells-through-the-blob-entry-point")
+			out, verr = v.(notation.BlobVerifier).VerifyBlob(context.Background(), func(digest.Algorithm) (ocispec.Descriptor, error) { return desc, nil }, sig, notation.BlobVerifierVerifyOptions{SignatureMediaType: c.Format})
+		} else {
+			out, verr = v.Verify(context.Background(), desc, sig, notation.VerifierVerifyOptions{ArtifactReference: "r.io/a@" + desc.Digest.String(), SignatureMediaType: c.Format})
+		}
 		want := model(c)
 		got := verr == nil
 		accepted[i] = got
